@@ -53,7 +53,7 @@ def handle : Handler := fun op a =>
       return Json.mkObj [
         ("table_ok", Json.bool (tableOk bins lens)),
         ("bins", jBins specBins), ("pixels", jPixels spec), ("total", jInt (total spec)),
-        ("new_binsize", jOpt jNat (getBinsize specBins)),
+        ("new_binsize", jOpt jNat (getBinsize specBins)), ("old_binsize", jOpt jNat (getBinsize bins)),
         ("model_edges", jNats edges), ("model_pruned", jNats es),
         ("model_pruned_valid", Json.bool (validPrunedEdges edges es)),
         ("l1_agrees", Json.bool (decide (l1 = spec) && decide (newBins = specBins)))]
